@@ -394,10 +394,6 @@ def _codes_of_leaf(arr, n):
     return c.astype(np.int64), np.abs(x - c) < 1e-3
 
 
-class Decoded:
-    """per row of a flattened block: the cell index (into the group's cell list) each column belongs to (-1: none)"""
-
-
 def decode_block(L, rd, members, six, ctx, sig, details):
     """six = (states, actions, log_probs, advantages, returns, values).  Returns None when the block is not even
     row-shaped (reported) else a dict of per-row arrays."""
@@ -816,10 +812,10 @@ PROPERTY = Property(
           "ctx.nontrivial is called per rollout"),
     obligations=[
         Obligation("ppo_gae_rows", run_case, strategy=ppo_strategy, enumerate=ppo_grid,
-                   examples={"quick": 40, "thorough": 150}, shards={"quick": 5, "thorough": 16},
+                   examples={"quick": 32, "thorough": 250}, shards={"quick": 5, "thorough": 16},
                    shrink_budget={"quick": 25, "thorough": 300}),
         Obligation("ippo_gae_rows", run_case, strategy=ippo_strategy, enumerate=ippo_grid,
-                   examples={"quick": 40, "thorough": 150}, shards={"quick": 5, "thorough": 16},
+                   examples={"quick": 32, "thorough": 250}, shards={"quick": 5, "thorough": 16},
                    shrink_budget={"quick": 25, "thorough": 300}),
     ],
     assumptions=[
